@@ -64,3 +64,59 @@ func TestSeededAndExplicitAgree(t *testing.T) {
 		t.Fatalf("no-switch schedule: %s", td)
 	}
 }
+
+// lockTrace: three tasks take a cooperative lock (a flag and Blocked, the shape
+// cmd/yieldinst gives to x.Lock()), yield inside the critical section, and release.
+func lockTrace(s *Sched) (string, int) {
+	held := false // only touched by the task that holds the baton
+	order := ""
+	var fns []func()
+	for t := 0; t < 3; t++ {
+		t := t
+		fns = append(fns, func() {
+			for round := 0; round < 4; round++ {
+				s.Yield(1)
+				for held {
+					s.Blocked(2)
+				}
+				held = true
+				for i := 0; i < 5; i++ {
+					s.Yield(3)
+				}
+				order += fmt.Sprint(t)
+				held = false
+			}
+		})
+	}
+	if !s.Run(fns, 0, 10*time.Second) {
+		return "stuck", 0
+	}
+	return order, s.BlockedN
+}
+
+func TestBlockedHandsTheBatonOn(t *testing.T) {
+	if RaceBuild {
+		t.Skip("the tasks share a flag on purpose; to the race detector the baton is invisible")
+	}
+	a := NewSeeded(7, 2)
+	oa, na := lockTrace(a)
+	if oa == "stuck" || len(oa) != 12 {
+		t.Fatalf("tasks waiting for a cooperative lock did not finish: %q", oa)
+	}
+	if na == 0 {
+		t.Fatalf("no task ever found the lock taken: the test does not exercise Blocked")
+	}
+	b := NewSeeded(7, 2)
+	if ob, nb := lockTrace(b); ob != oa || nb != na {
+		t.Fatalf("same seed, different lock order: %q/%d vs %q/%d", oa, na, ob, nb)
+	}
+	c := NewExplicit(a.Rec, a.RecEnds)
+	if oc, _ := lockTrace(c); oc != oa {
+		t.Fatalf("explicit replay differs: %q vs %q", oa, oc)
+	}
+	// a schedule with every switch removed still terminates (Blocked picks somebody itself)
+	d := NewExplicit(nil, nil)
+	if od, _ := lockTrace(d); od == "stuck" || len(od) != 12 {
+		t.Fatalf("empty explicit schedule got stuck on the lock: %q", od)
+	}
+}
